@@ -17,7 +17,7 @@ FILES = ["ops/map.rs", "ops/map_to.rs", "ops/filter.rs", "ops/filter_map.rs", "o
          "ops/take_while.rs", "ops/skip_while.rs", "ops/take_last.rs", "ops/skip_last.rs", "ops/last.rs", "ops/scan.rs", "ops/default_if_empty.rs",
          "ops/distinct.rs", "ops/pairwise.rs", "ops/buffer.rs", "ops/contains.rs", "ops/collect.rs", "ops/start_with.rs",
          "ops/merge.rs", "ops/zip.rs", "ops/combine_latest.rs", "ops/with_latest_from.rs", "ops/take_until.rs", "ops/skip_until.rs", "ops/sample.rs",
-         "ops/finalize.rs", "ops/group_by.rs", "ops/on_error.rs", "ops/on_complete.rs", "observer.rs", "subscriber.rs", "observable/subscribe_item.rs", "observable.rs"]
+         "ops/finalize.rs", "ops/group_by.rs", "ops/on_error.rs", "ops/on_complete.rs", "observer.rs", "subscriber.rs", "observable/subscribe_item.rs", "observable.rs", "subscription.rs"]
 
 TOK = re.compile(r"""
    (?P<ws>\s+|//[^\n]*|/\*.*?\*/)
